@@ -66,6 +66,7 @@ class Ctx:
         self.assumptions = []
         self.findings = [f for f in load_findings() if f["property"] == pid]
         self.quick = tier == "quick"
+        self.collected = []       # items handed back by fork_map workers (sub.cov["_collect"])
 
     # ---- scratch
     def tmp(self, name):
@@ -156,6 +157,7 @@ class Ctx:
         for d, det in self.drifts:
             lines.append("DRIFT property=%s %s" % (self.pid, d))
         cov = dict(self.cov)
+        cov.pop("_collect", None)
         cov["distinct_nontrivial"] = len(self._nontrivial)
         if not cov["samples"]:
             cov["samples"] = ["(no sample recorded)"]
@@ -265,6 +267,7 @@ def fork_map(ctx, fn, items, nproc=None, chunks_per_proc=4):
         ctx.cov["tlc_runs"].extend(r["cov"]["tlc_runs"])
         for s in r["cov"]["samples"]:
             ctx.sample(s)
+        ctx.collected.extend(r["cov"].get("_collect", []))
         ctx._nontrivial |= r["nontrivial"]
         for a in r["assumptions"]:
             ctx.assume(a)
